@@ -122,12 +122,69 @@ def build(spec):
     b.E[-1].angular_speed = Q('AngularSpeed', ini['speed'])
     if m.get('pwm0') is not None:
         motor.pwm = m['pwm0']
-    b.control = None
-    if spec.get('rules') is not None:
-        b.control = PWMControl(b.pt)
-        for rl in spec['rules']:
-            b.control.add_rule(make_rule(b, rl))
+    b.controls = {}
+    b.control = control_for(b, spec.get('rules'))
     return b
+
+
+_UNSET = object()
+
+
+def rules_of_op(spec, op):
+    """the rule set (list, or None for no controller) in force during a run op: the op's own `rules`
+    entry if it has one, else the spec's rule set unless the op switches control off"""
+    if 'rules' in op:
+        return op['rules']
+    return spec.get('rules') if op.get('ctrl', True) else None
+
+
+def control_for(b, rules):
+    """one PWMControl (and one set of rule / sensor objects) per distinct rule-set description: a
+    schedule that names the same rule set twice re-uses the same objects, as users do"""
+    if rules is None:
+        return None
+    import json as _json
+    key = _json.dumps(rules, sort_keys=True)
+    if key not in b.controls:
+        c = PWMControl(b.pt)
+        for rl in rules:
+            c.add_rule(make_rule(b, rl))
+        b.controls[key] = c
+    return b.controls[key]
+
+
+def rules_at(spec, tr):
+    """rule set in force at every recorded instant (instants recorded before the last reset are gone)"""
+    own = owner_at(spec, tr)
+    return [rules_of_op(spec, spec['ops'][i]) if i is not None else None for i in own]
+
+
+def last_reset(spec, tr):
+    """index of the last executed reset op (-1 if none): instants recorded before it are gone"""
+    k = -1
+    err_at = tr['error'][0] if tr.get('error') else None
+    for i, (op, rec) in enumerate(zip(spec['ops'], tr.get('ops') or [])):
+        if op['op'] == 'reset' and i != err_at:
+            k = i
+    return k
+
+
+def owner_at(spec, tr):
+    """index of the run op that produced every recorded instant"""
+    n = len(tr.get('time') or [])
+    out = [None] * n
+    lr = last_reset(spec, tr)
+    for i, (op, rec) in enumerate(zip(spec['ops'], tr.get('ops') or [])):
+        if op['op'] == 'run' and i > lr:
+            for j in range(rec['n_before'], min(rec.get('n_after', rec['n_before']), n)):
+                out[j] = i
+    return out
+
+
+def uniform_rules(spec):
+    """True when every run of the schedule uses the same rule set (whole-history model runs need that)"""
+    sets = [rules_of_op(spec, op) for op in spec['ops'] if op['op'] == 'run']
+    return all(x == sets[0] for x in sets) if sets else True
 
 
 def make_rule(b, rl):
@@ -215,7 +272,7 @@ def simulate(spec, b=None):
         try:
             if op['op'] == 'run':
                 solver.run(time_discretization=Q('TimeInterval', op['dt']), simulation_time=Q('TimeInterval', op['T']),
-                           motor_control=b.control if op.get('ctrl', True) else None,
+                           motor_control=control_for(b, rules_of_op(spec, op)),
                            stop_condition=stops.setdefault(_json.dumps(op.get('stop'), sort_keys=True), make_stop(b, op.get('stop'))))
             elif op['op'] == 'reset':
                 pt.reset()
@@ -355,7 +412,7 @@ def code_factor(kind, unit):
     return _CF[(kind, unit)]
 
 
-def model_cfg(spec, tr, dt_unit=None):
+def model_cfg(spec, tr, dt_unit=None, rules=_UNSET):
     """`key=value` tokens describing the configuration to the driver. Ratios, efficiencies and the
     self-locking flag are read from the built objects (they are C10's / C20's subject, checked by
     their own harness); everything else comes from the spec."""
@@ -374,11 +431,14 @@ def model_cfg(spec, tr, dt_unit=None):
     if m.get('i0') is not None and m.get('imax') is not None:
         toks.append(f"i0={siR('Current', m['i0'])} imax={siR('Current', m['imax'])}")
     toks.append('load=' + ','.join(R(c) for c in spec['load']['coef']))
-    if spec.get('rules') is None:
+    if rules is _UNSET:
+        runs = [op for op in spec['ops'] if op['op'] == 'run']
+        rules = rules_of_op(spec, runs[0]) if runs else spec.get('rules')
+    if rules is None:
         toks.append('rules=-')
     else:
         rs = []
-        for rl in spec['rules']:
+        for rl in rules:
             t = rl['type']
             if t == 'const':
                 du = dt_unit or first_dt_unit(spec)
@@ -548,24 +608,33 @@ def lockstep_requests(spec, tr, max_steps=None):
     n = min(len(tr['els'][0]['angular position']), len(tr['time']))
     if not tr['locked'] or len(tr['locked']) < n:
         return []
-    base = ' '.join(model_cfg(spec, tr))
     last = tr['els'][-1]
     mot = tr['els'][0]
     out = []
     dirty = False
     first_op = True
-    for op, rec in zip(spec['ops'], tr['ops']):
+    lr = last_reset(spec, tr)
+    init = spec['init']          # initial conditions in force for a start from an empty history
+    for oi, (op, rec) in enumerate(zip(spec['ops'], tr['ops'])):
+        if oi <= lr:
+            first_op = False
+            if oi == lr:
+                init = None      # reset restores the first record of the lost history: not observable
+            continue
         if op['op'] != 'run':
             dirty = True
             first_op = False
+            if op['op'] == 'init':
+                init = op
             continue
         a, b = rec['n_before'], min(rec.get('n_after', rec['n_before']), n)
         dt = F(op['dt'][0]) * code_factor('TimeInterval', op['dt'][1])
+        base = ' '.join(model_cfg(spec, tr, rules=rules_of_op(spec, op)))
         for j in range(a, b):
             if j == 0:
-                if not first_op:
+                if init is None:
                     continue
-                toks = [f"initial=1 pos={siR('AngularPosition', spec['init']['pos'])} speed={siR('AngularSpeed', spec['init']['speed'])}",
+                toks = [f"initial=1 pos={siR('AngularPosition', init['pos'])} speed={siR('AngularSpeed', init['speed'])}",
                         f"acc=0 pwm={R(rec['pwm_before'])} locked=0 t=0 dt={R(dt)}"]
             else:
                 if j == a and dirty:
